@@ -4,7 +4,7 @@
    specification after every conversation; (3) which callback each command reaches.
    Proofs only; statements fixed. *)
 From MsqlVerif Require Import Model.Server Spec.Render Spec.AbsServer Spec.ClientEnc Spec.History
-  Proofs.BaseLemmas Proofs.ParamsDecode.
+  Proofs.BaseLemmas Proofs.ParamsDecode Proofs.HdrLemmas.
 From Coq Require Import Lia.
 Open Scope N_scope.
 
@@ -393,10 +393,51 @@ Proof.
       eapply abs_pull_all_ok. unfold pstate0 in Hf. exact Hf. }
     unfold abs_handle; cbv beta iota zeta. rewrite Hlk, Hvalid, Hpop. cbv beta iota zeta.
     rewrite Hret, Hpull, Hconvs. cbn [no_tag negb].
+    rewrite abs_pull_hdr by discriminate. unfold pstate_of.
     rewrite Hp, Hn.
     replace (N.to_nat (Nlen ps)) with (length ps) by (unfold Nlen; symmetry; apply Nat2N.id).
     unfold pstate0 in Hf. rewrite Hf, Hmsgs. reflexivity.
   - eapply reg_matches_exec; eauto.
+Qed.
+
+(* the registry follows the history however many parameters the shim pulls (including none, and
+   whatever conversions it asks for): the types sent with an execution are bound when the command is
+   validated ([b = true] records the new types, [b = false] keeps the old ones) *)
+Theorem exec_registry_any_pull id ps b st sc h v rep st' sc' :
+  reg_matches st h -> abs_stmt h id = Some v ->
+  v_params v = Nlen ps -> Nlen ps < 65536 ->
+  (b = true -> types_ok ps) ->
+  abs_handle fpext fptrunc errtab (CmdExecute id (exec_block ps b)) (st, sc) = Some (rep, (st', sc')) ->
+  reg_matches st' (h ++ [HExec id ps b]).
+Proof.
+  intros Hreg Habs Hn Hlt Htok Hh.
+  pose proof (Hreg id) as Hid. rewrite Habs in Hid.
+  destruct (lookup id st) as [sd|] eqn:Hlk; [|contradiction].
+  destruct Hid as (Hp & Hb & Hl).
+  revert Hh. unfold abs_handle; cbv beta iota zeta. rewrite Hlk.
+  destruct (params_valid fpext sd (exec_block ps b)) eqn:Hv; cbn [negb]; [|discriminate].
+  destruct (pop_x sc) as [x sc1].
+  destruct (negb (no_tag (x_ret x))); [discriminate|].
+  destruct (abs_pull fpext fptrunc _ _ _ _) as [[cs p]|] eqn:E; [|discriminate].
+  destruct (pm_q errtab true None (x_prog x)); [|discriminate].
+  intro Hh. inversion Hh; subst rep st' sc'. clear Hh.
+  destruct (params_valid_header fpext sd _ Hv) as (p1 & Hh1 & Ehdr).
+  rewrite Ehdr in E.
+  destruct (params_header_nullmap _ _ Hh1) as [bm Hbm].
+  assert (Hpb : p_bound p = p_bound p1) by (eapply abs_pull_bound; [exact E | congruence]).
+  eapply reg_matches_exec; [exact Hreg | exact Hlk | exact Habs |].
+  rewrite Hpb. unfold pstate_of in Hh1. rewrite Hp, Hn in Hh1.
+  destruct ps as [|p0 ps0].
+  - change (exec_block [] b) with (@nil byte) in Hh1.
+    unfold params_header in Hh1. cbn [p_nullmap p_params p_input p_col p_long p_bound] in Hh1.
+    change (N.to_nat ((Nlen (@nil cparam) + 7) / 8)) with O in Hh1. cbn [take_n] in Hh1.
+    inversion Hh1; subst p1. cbn [p_bound]. destruct b; exact Hb.
+  - assert (Hne : p0 :: ps0 <> []) by discriminate.
+    destruct b.
+    + pose proof (header_bound (p0 :: ps0) (sd_long sd) (sd_bound sd) Hne (Htok eq_refl)) as HB.
+      unfold pstate0 in HB. rewrite HB in Hh1. inversion Hh1; subst p1. reflexivity.
+    + pose proof (header_reuse (p0 :: ps0) (sd_long sd) (sd_bound sd) Hne) as HB.
+      rewrite HB in Hh1. inversion Hh1; subst p1. cbn [stI p_bound]. exact Hb.
 Qed.
 
 (* ---------- (3) dispatch (C02) ---------- *)
@@ -738,3 +779,4 @@ Print Assumptions dispatch.
 Print Assumptions use_spellings.
 Print Assumptions hist_isolation.
 Print Assumptions hist_long_append.
+Print Assumptions exec_registry_any_pull.
